@@ -93,9 +93,10 @@ def to_python(v):
     raise ValueError(k)
 
 
-def same_value(expected, got):
+def same_value(expected, got, ordered=False):
     """`got` (from pycomm3) equals the tagged `expected`: ints / bools / strings exactly, floats by
-    their bit pattern (any NaN matches any NaN), dicts with exactly the expected keys in order"""
+    their bit pattern (any NaN matches any NaN), dicts with exactly the expected keys (ordered=True:
+    in member order — pycomm3 lists BOOL members after all the others)"""
     k, a = expected
     if k == "i":
         return type(got) is int and got == a
@@ -111,10 +112,12 @@ def same_value(expected, got):
     if k == "s":
         return isinstance(got, str) and got == a
     if k == "L":
-        return isinstance(got, list) and len(got) == len(a) and all(same_value(e, g) for e, g in zip(a, got))
+        return isinstance(got, list) and len(got) == len(a) and all(same_value(e, g, ordered) for e, g in zip(a, got))
     if k == "S":
-        return (isinstance(got, dict) and list(got.keys()) == [n for n, _ in a]
-                and all(same_value(e, got[n]) for n, e in a))
+        keys = [n for n, _ in a]
+        if not isinstance(got, dict) or (list(got.keys()) != keys if ordered else sorted(got.keys()) != sorted(keys)):
+            return False
+        return all(same_value(e, got[n], ordered) for n, e in a)
     return False
 
 
@@ -132,6 +135,8 @@ def refread(tp, request, unwrap_single=True):
     if str(ans[0]) != "ok":
         return None
     name, count = _text(ans[1]), ans[2]
+    if name == "ASCIISTRING82":          # pycomm3's documented name of the built-in string type
+        name = "STRING"
     v, _ = parse_value(ans, 3)
     if unwrap_single and count == 1 and v[0] == "L" and len(v[1]) == 1:
         v = v[1][0]
